@@ -39,6 +39,9 @@ ASSUMPTIONS = ["the grid is [G; -G] with G in the canonical half (verified for t
 OUTSIDE = ["that Qhull's regions are the true nearest-neighbour regions", "face areas (SVD + Girard sum)", "N beyond the bound"]
 
 
+STUBS += ["the contract of the compiled geometry assumed by the stand-ins (no exception, one symmetric pattern, positive areas / distances) is re-checked "
+          "on ten small real rotation grids on every run (deferred harness error if broken)"]
+
 def bounds(tier):
     return {"fold_N": [2, 3] + ([4] if tier == "thorough" else ["4 (seeded sub-family of patterns)"]), "fold_patterns": "all antipodally invariant patterns",
             "assembly": "n<=5 cells, dim 3 and 4, seeded region lists + complete + empty", "distance": "one pair of symbolic quaternions"}
@@ -857,5 +860,38 @@ def finding_key(cex):
     return f"C04:{s['kind']}{s.get('via', '')}:{ob}"
 
 
+DEFERRED_ERRORS = []
+
+
+def stub_contract():
+    """The harnesses replace the compiled geometry (Qhull regions, SVD projection of a face, ordering of its vertices, Girard sum) by contract
+    stand-ins: "for every pair of cells that share a face the code obtains a positive area / a positive distance; the three matrices sit on
+    one symmetric pattern".  What is below that contract is outside the claim (LAPACK, arctan2 / arccos over coordinates) -- but the contract
+    itself is re-checked here on small REAL rotation grids on every run.  A tree on which the real geometry side raises, or delivers
+    non-positive or asymmetric values, makes the run a HARNESS ERROR (the symbolic result would rest on a false assumption), never a pass."""
+    import contextlib, io
+    import molgri.space.rotobj as RO
+    n = 0
+    with contextlib.redirect_stdout(io.StringIO()):
+        for alg, Ns in (("cube4D", (4, 5, 6, 8, 10)), ("randomQ", (4, 5, 7, 8, 12))):
+            for N in Ns:
+                g = RO.SphereGrid4DFactory.create(alg, N)
+                A = g.get_voronoi_adjacency().toarray()
+                B = g.get_cell_borders().toarray()
+                D = g.get_center_distances().toarray()
+                assert np.array_equal(A != 0, B != 0) and np.array_equal(A != 0, D != 0), (alg, N, "the three matrices do not share one pattern")
+                assert np.allclose(B, B.T) and np.allclose(D, D.T) and np.array_equal(A, A.T), (alg, N, "a matrix is not symmetric")
+                assert (B[B != 0] > 0).all() and (D[D != 0] > 0).all(), (alg, N, "a border area / distance is not positive")
+                n += 1
+    return n
+
+
 def selftest(seed):
-    return sparse_selftest(seed, rounds=4)
+    del DEFERRED_ERRORS[:]
+    n = sparse_selftest(seed, rounds=4)
+    try:
+        n += stub_contract()
+    except Exception:  # noqa: BLE001
+        import traceback
+        DEFERRED_ERRORS.append("contract of the compiled geometry broken on a small real rotation grid (the stand-ins assume it):\n" + traceback.format_exc()[-1500:])
+    return n
